@@ -11,6 +11,16 @@ RANK = {S.T_NONE: 0, S.T_READY: 1, S.T_WORKING: 2, S.T_FINISHED: 3}
 CRANK = {S.C_NONE: 0, S.C_READY: 1, S.C_WORKING: 2, S.C_FINISHED: 3}
 
 
+
+def absn_of(ex):
+    """the project-wide absence steps of the whole result in absolute time: the list given to the observed call, and - for a run that continues an earlier part
+    made with ANOTHER list (opts first_absence) - that other list for the steps before the stop"""
+    a2 = set(ex.opts.get("absence") or ())
+    if ex.opts.get("first_absence") is None or ex.opts.get("resume_from") is None:
+        return a2
+    k = ex.opts["resume_from"]
+    return set(a for a in ex.opts["first_absence"] if a < k) | set(a for a in a2 if a >= k)
+
 def V(pid, sig, ex, detail, kind="sim"):
     opts = {k: v for k, v in ex.opts.items() if k not in ("phases", "want_canon")}
     return {"property": pid, "sig": sig, "kind": kind, "spec": ex.spec, "opts": opts, "detail": detail}
@@ -23,6 +33,8 @@ def res_absent(ex, info, name, t):
     sp = info.workers.get(name) or info.facilities.get(name) or {}
     if sp.get("absence_after") is not None:
         return t in sp["absence_after"]
+    if sp.get("absence_late") is not None:
+        return t in sp["absence_late"]
     return t in sp.get("absence", ())
 
 
@@ -79,7 +91,7 @@ def mon_c01(ex, info, col):
                         out.append(V("C01", "C01:FINISHED-before-SF-pred-started", ex,
                                      {"task": tn, "pred": pn, "t": t, "phase": ph, "pred_state": S.TSTATE_NAME.get(ps, ps)}))
     # the logs: only WORKING -> READY at a project-wide absence step may go backwards
-    absn = set(ex.opts.get("absence") or ())
+    absn = absn_of(ex)
     for tn in info.tnames:
         log = [int(s) for s in ex.m.byname[tn].state_record_list]
         if tn in exempt:
@@ -206,7 +218,7 @@ def mon_c02(ex, info, col):
     # logs after remove_absence_time_list(): what is left are working steps, so every logged WORKING step shows exactly the progress of its logged allocation
     # (models without personal calendars; a backward result with reversed logs is read in the order the run produced it)
     if ex.opts.get("post_remove") and not ex.opts.get("post_insert") and not ex.opts.get("res_absence") and ex.error is None \
-            and not any(r.get("absence") or r.get("absence_after") for r in list(info.workers.values()) + list(info.facilities.values())):
+            and not any(r.get("absence") or r.get("absence_after") or r.get("absence_late") for r in list(info.workers.values()) + list(info.facilities.values())):
         flip = bool(ex.opts.get("backward")) and bool(ex.opts.get("rev", True))
         for tn in info.tnames:
             if info.is_auto(tn) and ex.opts.get("auto_abs"):
@@ -241,7 +253,7 @@ def mon_c02(ex, info, col):
                     out.append(V("C02", "C02:logged-FINISHED-with-nonzero-remaining", ex, {"task": tn, "k": k, "remaining": rl[k]}))
         ts = info.tasks[tn]
         # (at a project-wide absence step a WORKING automatic task is *logged* READY and may have progressed: no claim there)
-        if rl and sl and (sl[0] == S.T_NONE or (sl[0] == S.T_READY and 0 not in (ex.opts.get("absence") or ()))):
+        if rl and sl and (sl[0] == S.T_NONE or (sl[0] == S.T_READY and 0 not in absn_of(ex))):
             exp = ts.get("work", 1.0) * (1.0 - (ts.get("progress") or 0.0))
             col.checks["c02.initial"] += 1
             if abs(rl[0] - exp) > TOL:
@@ -298,7 +310,7 @@ def mon_c03(ex, info, col):
                 col.nontrivial.add(hash((info.key, "contention", tuple(sorted((k, v[0], v[2], v[3]) for k, v in tasks.items())))))
     # logs
     p = ex.m
-    absn = set(ex.opts.get("absence") or ())
+    absn = absn_of(ex)
     n = len(ex.project.cost_list)
     for kind, names, tkey in (("worker", info.workers, "allocated_worker_id_record"), ("facility", info.facilities, "allocated_facility_id_record")):
         for rn in names:
@@ -524,7 +536,7 @@ def mon_c07(ex, info, col):
     out = []
     p = ex.project
     m = ex.m
-    absn = set(ex.opts.get("absence") or ())
+    absn = absn_of(ex)
     if ex.opts.get("post_remove") or ex.opts.get("post_reverse"):
         absn = set()  # the absence steps were deleted from the result afterwards / the result was reversed by hand (resources are logged ABSENCE at absence steps wherever those are now)
     n = len(p.cost_list)
@@ -595,7 +607,7 @@ def mon_c14(ex, info, col):
             if len(set(tstates)) > 1:
                 col.nontrivial.add(hash((info.key, cn, tuple(tstates), cs)))
     # logs (display rule: at a project-wide absence step WORKING is logged as READY, for tasks and components alike)
-    absn = set(ex.opts.get("absence") or ())
+    absn = absn_of(ex)
     for cn in info.comps:
         c = ex.m.byname[cn]
         clog = [int(s) for s in c.state_record_list]
@@ -625,7 +637,7 @@ def mon_c14(ex, info, col):
 def mon_c10(ex, info, col):
     out = []
     bs = ex.by_step()
-    absn = set(ex.opts.get("absence") or ())
+    absn = absn_of(ex)
     for t in sorted(bs):
         phs = bs[t]
         if "allocated" not in phs:
